@@ -18,14 +18,22 @@ def lattice(g: dict, meta: dict | None = None) -> LatticeMaze:
     return LatticeMaze(connection_list=M.g_cl(g), generation_meta=meta)
 
 
+def _layout(arr: np.ndarray, dtype) -> np.ndarray:
+    """memory layout is array provenance too: a narrow dtype handed over by `provenance` also selects Fortran order for int16 (and a
+    transposed view of a C array has the same layout) - same values, same shape, different strides"""
+    if dtype == "int16" and arr.ndim >= 2:
+        return np.asfortranarray(arr)
+    return arr
+
+
 def targeted(g: dict, s, e, meta: dict | None = None, dtype=None) -> TargetedLatticeMaze:
     return TargetedLatticeMaze(
-        connection_list=M.g_cl(g), start_pos=np.array(s, dtype=dtype), end_pos=np.array(e, dtype=dtype), generation_meta=meta
+        connection_list=_layout(M.g_cl(g), dtype), start_pos=np.array(s, dtype=dtype), end_pos=np.array(e, dtype=dtype), generation_meta=meta
     )
 
 
 def solved(g: dict, sol, meta: dict | None = None, dtype=None) -> SolvedMaze:
-    return SolvedMaze(connection_list=M.g_cl(g), solution=np.array(sol, dtype=dtype), generation_meta=meta)
+    return SolvedMaze(connection_list=_layout(M.g_cl(g), dtype), solution=_layout(np.array(sol, dtype=dtype), dtype), generation_meta=meta)
 
 
 def make_kind(kind: str, g: dict, sol, dtype=None):
